@@ -115,6 +115,9 @@ V("C10", "fatal_false", "fire", [(GI, "                    rules=rules,\n       
 V("C10", "swallow_aclerror", "fire", [(GI, "            logger.error(\"ACL error: generator is not allowed to yield this command: %s\", err)\n            raise GeneratorError from err", "            logger.error(\"ACL error: generator is not allowed to yield this command: %s\", err)")], rule="C10.R1")
 V("C10", "no_exclusive", "fire", [(GEN, "                new,\n                acl_rules,\n                exclusive=not ctx.args.no_acl_exclusive,", "                new,\n                acl_rules,")], rule="C10.R2")
 V("C10", "tag_first_line_only", "fire", [(RES, "                acl_text += fr\"  %generator_names={gr.name}\"", "                if not acl_text:\n                    acl_text += fr\"  %generator_names={gr.name}\"")], rule="C10.R4")
+V("C10", "fold_other_results_config", "fire", [("annet/generators/result.py", "            tree = merge_dicts(tree, config)\n", "            tree = merge_dicts(tree, config) if config else odict()\n")], rule="C10.R3")
+V("C10", "twin_combine_join", "silent", [("annet/generators/result.py", "            if line and not line.isspace():\n                acl_text += line.rstrip()\n                acl_text += fr\"  %generator_names={gr.name}\"\n                acl_text += \"\\n\"\n", "            if not line or line.isspace():\n                continue\n            acl_text += line.rstrip() + fr\"  %generator_names={gr.name}\" + \"\\n\"\n")])
+V("C10", "combine_skip_comment_lines", "fire", [("annet/generators/result.py", "            if line and not line.isspace():\n                acl_text += line.rstrip()", "            if line.startswith(\"#\"):\n                continue\n            if line and not line.isspace():\n                acl_text += line.rstrip()")], rule="C10.R4")
 V("C10", "add_partial_if_config", "fire", [(GI, "        ret.add_partial(result)", "        if result.config:\n            ret.add_partial(result)")], rule="C10.R3")
 
 # ---------------------------------------------------------------- C11
@@ -149,6 +152,9 @@ V("C18", "bad_logic_name", "fire", [("annet/rulebook/texts/huawei.rul", "%logic=
 V("C18", "missing_endif", "fire", [("annet/rulebook/texts/cisco.rul", "%endif\n", "")], rule="C18.R3")
 V("C18", "hw_soft_in_template", "fire", [("annet/rulebook/texts/cisco.rul", "%if hw.Cisco.ASR or hw.Cisco.XRV:", "%if hw.Cisco.ASR or hw.soft.startswith('7'):")])
 V("C18", "vendor_tie", "fire", [("annet/vendors/library/optixtrans.py", "return [\"Huawei.OptiXtrans\"]", "return [\"OptiXtrans\"]")], rule="C18.R5")
+V("C18", "argmax_not_reversed", "fire", [("annet/vendors/registry.py", "sorted(matched, key=itemgetter(1), reverse=True)", "sorted(matched, key=itemgetter(1))")], rule="C18.R5")
+V("C18", "argmax_wrong_component", "fire", [("annet/vendors/registry.py", "sorted(matched, key=itemgetter(1), reverse=True)", "sorted(matched, key=lambda x: x[0].NAME, reverse=True)")], rule="C18.R5")
+V("C18", "twin_argmax_max", "silent", [("annet/vendors/registry.py", "return next(iter(sorted(matched, key=itemgetter(1), reverse=True)))[0]", "return max(matched, key=itemgetter(1))[0]")])
 V("C18", "python_chain_unknown", "fire", [(IMP, "elif device.hw.Huawei.NE:", "elif device.hw.Huawei.NEE:")], rule="C18.R1")
 
 # ---------------------------------------------------------------- C19
